@@ -49,9 +49,44 @@ C08Move(pre, e, post, line) ==
     IN Chk("C08", "account_migrated_only_by_its_authority_or_by_the_admin_while_frozen", line,
            IF Bit(ac.flags, ACC_FROZEN) THEN sg = adm ELSE sg = ac.auth, [acct |-> e.a.acct, signer |-> sg])
 
+\* ---- every recorded execution (not only the matrix cells): who signed an instruction that changes an account's balances.
+\* The signer recorded with the action is the key that signed (default: the account's authority).
+UserOps == {"deposit", "withdraw", "borrow", "repay", "close_balance", "withdraw_emissions", "kamino_deposit", "kamino_withdraw",
+            "drift_deposit", "drift_withdraw", "solend_deposit", "solend_withdraw"}
+ReceiverOps == {"withdraw", "repay", "kamino_withdraw", "drift_withdraw", "solend_withdraw"}
+BracketStart == {"start_liq", "start_delev"}
+BracketEnd == {"end_liq", "end_delev"}
+SignerOfIx(st, ix) == IF Has(ix, "signer") THEN ix.signer ELSE st.accts[ix.acct].auth
+EntitledUser(st, an, sg) ==
+  LET ac == st.accts[an] IN
+  IF Bit(ac.flags, ACC_FROZEN) THEN (Has(st.groups, ac.group) /\ sg = st.groups[ac.group].admin) ELSE sg = ac.auth
+\* position k of list L lies strictly inside a bracket on account an that starts and ends in this very list
+InsideBracket(L, k, an) ==
+  /\ \E i \in 1..(k - 1) : /\ L[i].op \in BracketStart /\ Has(L[i], "acct") /\ L[i].acct = an
+                            /\ \A j \in (i + 1)..(k - 1) : ~(L[j].op \in BracketEnd /\ Has(L[j], "acct") /\ L[j].acct = an)
+  /\ \E j \in (k + 1)..Len(L) : L[j].op \in BracketEnd /\ Has(L[j], "acct") /\ L[j].acct = an
+C08Signers(pre, e, post, line) ==
+  /\ (Ok(e) /\ ~Has(e.a, "cell") /\ e.ev \in UserOps /\ Has(e.a, "acct") /\ Has(pre, "accts") /\ Has(pre.accts, e.a.acct) /\ ~Has(e.a, "nosign")) =>
+       Chk("C08", "balances_change_only_with_the_entitled_signature", line, EntitledUser(pre, e.a.acct, SignerOfIx(pre, e.a)),
+           [ev |-> e.ev, acct |-> e.a.acct, signer |-> SignerOfIx(pre, e.a), authority |-> pre.accts[e.a.acct].auth])
+  /\ (Ok(e) /\ ~Has(e.a, "cell") /\ e.ev = "tx" /\ Has(pre, "accts")) =>
+       LET L == e.a.ixs IN
+       \A k \in DOMAIN L :
+         (L[k].op \in UserOps /\ Has(L[k], "acct") /\ Has(pre.accts, L[k].acct) /\ ~Has(L[k], "nosign")) =>
+           Chk("C08", "third_party_acts_only_strictly_inside_a_bracket_and_only_withdraws_or_repays", line,
+               \/ EntitledUser(pre, L[k].acct, SignerOfIx(pre, L[k]))
+               \/ (L[k].op \in ReceiverOps /\ InsideBracket(L, k, L[k].acct)),
+               [ix |-> k, op |-> L[k].op, acct |-> L[k].acct, signer |-> SignerOfIx(pre, L[k])])
+  \* whoever held an account in receivership / deleverage holds nothing once the transaction has committed
+  /\ (Ok(e) /\ Has(post, "accts") /\ Has(post, "liqrec")) =>
+       Chk("C08", "third_party_control_ends_with_the_transaction", line,
+           /\ \A an \in DOMAIN post.accts : ~Bit(post.accts[an].flags, ACC_RECEIVERSHIP) /\ ~Bit(post.accts[an].flags, ACC_DELEVERAGE)
+           /\ \A r \in DOMAIN post.liqrec : post.liqrec[r].receiver = "none", [ev |-> e.ev])
+
 C08(pre, e, post, line) ==
   /\ C08Roles(pre, e, post, line)
   /\ C08Move(pre, e, post, line)
+  /\ C08Signers(pre, e, post, line)
   /\ (Has(e.a, "cell")) =>
     LET op == e.a.cell mode == e.a.mode ix == CellIx(e.a) slots == AuthOps[op].slots IN
     /\ (Has(ix, "subst")) =>
